@@ -145,7 +145,14 @@ def run(ctx):
         ppart.append(({'p': [[[str(x) for x in a], str(c)] for a, c in prow], 'i': i, 'k': k},
                       cq((Nat(n), Nat(i), Nat(k), prows)), cq((c12.canon(gp), c12.canon(hp)))))
         xr = [Fraction(ctx.rng.randint(-4, 4), ctx.rng.choice([1, 2])) for _ in range(n)]
-        xf = np.array([float(v) for v in xr])
+        if ctx.rng.random() < 0.3:
+            # an integer point handed over as an integer-typed array: derivatives of a polynomial with fractional coefficients are not integers
+            xr = [Fraction(ctx.rng.randint(-3, 3)) for _ in range(n)]
+            xf = np.array([int(v) for v in xr])
+            ctx.count('poly_point_dtype', 'int')
+        else:
+            xf = np.array([float(v) for v in xr])
+            ctx.count('poly_point_dtype', 'float')
         want_g = [sum(c * dmono(a, xr, ii) for a, c in prows) for ii in range(n)]
         got_g = p.grad_val(xf)
         if [Fraction(float(v)) for v in got_g] != want_g:
@@ -196,6 +203,13 @@ def run(ctx):
             zr = gen_f(ctx.rng, kz, True)[:2]
             zs.append(zr)
         small = [(a, c) for a, c in prow if sum(a) <= 3][:3] or [([Fraction(0)] * n, Fraction(1))]
+        if ctx.rng.random() < 0.2:
+            # an outer polynomial with a high power of one coordinate (5 = 101b, 6 = 110b): p(z) must still be the exact composition
+            jj = ctx.rng.randrange(n)
+            hi = [Fraction(0)] * n
+            hi[jj] = Fraction(ctx.rng.choice([5, 6]))
+            small = [(hi, Fraction(ctx.rng.choice([1, -2]))), ([Fraction(0)] * n, Fraction(1))]
+            zs[jj] = zs[jj][:2]
         ps = obj(small, n, True)
         zobjs = np.empty(n, dtype=object)
         for j, zr in enumerate(zs):
